@@ -42,12 +42,10 @@ def tri(test, var, value, atom):
             return True
         return False if all(r is False for r in rs) else None
     if isinstance(test, ast.Compare) and len(test.ops) == 1:
-        op = test.ops[0]
-        neg = {ast.IsNot: ast.Is, ast.NotEq: ast.Eq, ast.NotIn: ast.In}
-        if type(op) in neg:
-            pos = ast.Compare(left=test.left, ops=[neg[type(op)]()], comparators=test.comparators)
-            r = atom(value, canon_atom(ast.unparse(_subst_var(pos, var))))
-            return None if r is None else not r
+        from .cfg import canon_compare
+        t, negated = canon_compare(_subst_var(test, var))
+        r = atom(value, t)
+        return None if r is None else (not r if negated else r)
     if isinstance(test, ast.Constant):
         return bool(test.value)
     return atom(value, canon_atom(ast.unparse(_subst_var(test, var))))
